@@ -66,6 +66,16 @@ class SubAssoc(object):
         self.lab.sub_log.append('kill')
 
 
+def reusing_one_object(matches):
+    """A handler written as a generator that fills ONE Dataset object again and again (a common way to write it)."""
+    from pydicom.dataset import Dataset
+    one = Dataset()
+    for ds, status in matches:
+        one.clear()
+        one.update(ds)
+        yield one, status
+
+
 class LabAE(object):
     def __init__(self, lab):
         self.lab = lab
@@ -100,6 +110,8 @@ class LabAE(object):
 
     def on_receive_find(self, context, ds):
         self.lab.handler_calls.append(('find', (context, ds)))
+        if getattr(self.lab, 'reuse_match_object', False):
+            return reusing_one_object(self.lab.matches)
         return iter(self.lab.matches)
 
     def on_receive_move(self, context, ds, destination):
